@@ -2,7 +2,7 @@
    writers (U24Be, u16::try_from on counts / lengths / offsets, Pascal strings, glyf coordinate
    deltas).  For each writer: Ok implies every value fitted its field. *)
 From AV Require Import Base.Prelude Base.Lemmas Gen.ReaderPrims Model.Reader Model.ReaderExt
-  Proofs.ReaderProofs Proofs.EncodeProofs Model.Layout Proofs.LayoutProofs Proofs.RecordProofs
+  Proofs.ReaderProofs Proofs.EncodeProofs Model.TableLayout Proofs.TableLayoutProofs Proofs.RecordProofs
   Gen.TableLayouts Model.Tables.
 From Coq Require Import ZifyBool ZifyNat.
 Ltac Zify.zify_post_hook ::= Z.div_mod_to_equations.
